@@ -383,7 +383,7 @@ def plan(ctx):
     """[(job index, reactor, [spec,...])]; the same spec batches go to every reactor."""
     from vf.engines.reactorproc import REACTORS
 
-    nconn = ctx.size(24, 208)
+    nconn = ctx.size(24, 416)
     per_batch = 24 if ctx.quick else 52
     specs = [gen_spec(ctx.case_rng("conn", i), i, ctx.quick) for i in range(nconn)]
     batches = [specs[i:i + per_batch] for i in range(0, nconn, per_batch)]
